@@ -657,11 +657,28 @@ func kfSourceFormat(src []byte) bool {
 	return bytes.Contains(src, []byte("format")) && bytes.Contains(src, []byte("%"))
 }
 
+// sourceExcluded: input classes of the open findings for whole programs, by
+// what the program text mentions.
+func sourceExcluded(known func(string) bool, src []byte) string {
+	has := func(s string) bool { return bytes.Contains(src, []byte(s)) }
+	switch {
+	case (known(kfFormatTrunc) || known(kfFormatP)) && kfSourceFormat(src):
+		return kfFormatTrunc + "/" + kfFormatP + "(program text has 'format' and '%')"
+	case known(kfGCContexts) && has("__gc") && has("callcontext"):
+		return kfGCContexts + "(program text has '__gc' and 'callcontext')"
+	case known(kfUnpackLen) && (has("string.unpack") || has(":unpack")):
+		return kfUnpackLen + "(program text has string.unpack)"
+	case known(kfMatchInit) && (has("match")):
+		return kfMatchInit + "(program text has 'match')"
+	}
+	return ""
+}
+
 func sourceProp(w *worker) func(t *rapid.T) {
 	return func(t *rapid.T) {
 		c := genSource(t)
-		if (w.known(kfFormatTrunc) || w.known(kfFormatP)) && kfSourceFormat(c.Src) {
-			w.rec.Discard("excluded-by-finding:" + kfFormatTrunc + "/" + kfFormatP + "(program text has 'format' and '%')")
+		if why := sourceExcluded(w.known, c.Src); why != "" {
+			w.rec.Discard("excluded-by-finding:" + why)
 			return
 		}
 		w.mark(c, 0, 0)
@@ -715,8 +732,15 @@ func superviseSources(rec *ev.Recorder, known map[string]bool) {
 		case x.fatal != "":
 			fatal++
 			if x.inflight != nil {
+				// confirm in a fresh child (the worker has run thousands of cases)
 				c := x.inflight.Case
-				rec.Violation("source", c, "child process died while running source "+clip(c.Text, 300)+": "+x.fatal)
+				if r := runCaseChild(c, known, false, 4*time.Minute); r.msg != "" {
+					rec.Violation("source", c, "source "+clip(c.Text, 300)+": "+r.msg)
+				} else {
+					fatal--
+					rec.Discard("worker-death-not-reproduced-in-a-fresh-child")
+					fmt.Printf("sources: worker died but the case is fine in a fresh child: %s\n", clip(x.fatal, 200))
+				}
 			} else {
 				rec.Violation("source", Case{Kind: "source"}, "sources worker died before its first case: "+x.fatal)
 			}
